@@ -295,9 +295,18 @@ async fn post_tck_evaluate(params: Json<TckEvaluateParams>, data: web::Data<Appl
 /// Input values may be defined in `JSON` or `FEEL` context format.
 /// Result is always in JSON format.
 #[post("/evaluate/{model}/{invocable}")]
-async fn post_evaluate(params: web::Path<EvaluateParams>, request_body: String, data: web::Data<ApplicationData>) -> HttpResponse {
+async fn post_evaluate(params: web::Path<EvaluateParams>, request_body: web::Bytes, data: web::Data<ApplicationData>) -> HttpResponse {
+  // the input context is a text, a body that is not valid UTF-8 is reported like any other invalid input
+  let request_body = match std::str::from_utf8(&request_body) {
+    Ok(text) => text,
+    Err(_) => {
+      return HttpResponse::BadRequest()
+        .content_type("application/json")
+        .body(ResultDto::<String>::error(err_invalid_utf8_content()).to_string())
+    }
+  };
   if let Ok(workspace) = data.workspace.read() {
-    match do_evaluate(&workspace, &params.into_inner(), &request_body) {
+    match do_evaluate(&workspace, &params.into_inner(), request_body) {
       Ok(value) => HttpResponse::Ok()
         .content_type("application/json")
         .body(format!("{{\"data\":{}}}", value.jsonify())),
